@@ -13,7 +13,7 @@ import (
 )
 
 func init() {
-	Register(Harness{Prop: "C02", Name: "C02/txn", Run: c02Run, Post: c02Post, Weight: 1})
+	Register(Harness{Prop: "C02", Name: "C02/txn", Run: c02Run, Post: c02Post, Weight: 5})
 }
 
 // txnModel is the sequential model of one consumer as its (single) user sees it: the values it
